@@ -34,6 +34,11 @@ type rotatingWriter struct {
 	r *Rotating
 }
 
+// idSep separates the inner identifier from the generation. Upload identifiers are opaque; these three
+// bytes are chosen so that, at whatever offset they fall, a base64 rendering of the identifier uses both
+// characters in which the standard and the URL alphabet differ.
+const idSep = "~?>"
+
 func (r *Rotating) PushBlobChunked(ctx context.Context, repo string, hint int) (ociregistry.BlobWriter, error) {
 	w, err := r.Interface.PushBlobChunked(ctx, repo, hint)
 	if err != nil {
@@ -43,14 +48,14 @@ func (r *Rotating) PushBlobChunked(ctx context.Context, repo string, hint int) (
 }
 
 func (r *Rotating) PushBlobChunkedResume(ctx context.Context, repo, id string, offset int64, hint int) (ociregistry.BlobWriter, error) {
-	i := strings.LastIndex(id, "~")
+	i := strings.LastIndex(id, idSep)
 	if i < 0 {
 		return nil, fmt.Errorf("%w: no generation in %q", ociregistry.ErrBlobUploadUnknown, id)
 	}
 	r.mu.Lock()
 	cur := r.gen[id[:i]]
 	r.mu.Unlock()
-	if id[i+1:] != fmt.Sprint(cur) {
+	if id[i+len(idSep):] != fmt.Sprint(cur) {
 		return nil, fmt.Errorf("%w: identifier %q is not the latest one of this upload (generation %d)", ociregistry.ErrBlobUploadUnknown, id, cur)
 	}
 	w, err := r.Interface.PushBlobChunkedResume(ctx, repo, id[:i], offset, hint)
@@ -78,5 +83,5 @@ func (w *rotatingWriter) Write(p []byte) (int, error) {
 func (w *rotatingWriter) ID() string {
 	w.r.mu.Lock()
 	defer w.r.mu.Unlock()
-	return fmt.Sprintf("%s~%d", w.BlobWriter.ID(), w.r.gen[w.BlobWriter.ID()])
+	return fmt.Sprintf("%s%s%d", w.BlobWriter.ID(), idSep, w.r.gen[w.BlobWriter.ID()])
 }
